@@ -58,4 +58,35 @@ def get (cfg : Cfg) (root stored : Str) : GetRes :=
   else if !cfg.allowFiles then .disabled
   else .openFile (join2 root stored)
 
+
+/-- PutMany: every reference goes through putTo into one batch; the first error aborts and nothing is
+committed. `.error i` = index of the first refused reference, `.ok` = what is stored for each block. -/
+def putMany (cfg : Cfg) (root : Str) : List Str → Except Nat (List Str)
+  | [] => .ok []
+  | full :: rest =>
+    match put cfg root full with
+    | .file s | .url s =>
+      match putMany cfg root rest with
+      | .ok ss => .ok (s :: ss)
+      | .error i => .error (i + 1)
+    | _ => .error 0
+
+/-! ### what the operating system does with the opened path
+
+`Get` hands the lexical path to `os.Open`; the kernel resolves it element by element and follows symbolic
+links.  `links` maps the (physical, absolute) element list of a symbolic link to the element list of its
+absolute, already physical target. -/
+
+def lookupLink (links : List (List Str × List Str)) (p : List Str) : Option (List Str) :=
+  (links.find? (·.1 = p)).map (·.2)
+
+def physStep (links : List (List Str × List Str)) (acc : List Str) (c : Str) : List Str :=
+  match lookupLink links (acc ++ [c]) with
+  | some t => t
+  | none => acc ++ [c]
+
+/-- physical location of the rooted element list `p` -/
+def physical (links : List (List Str × List Str)) (p : List Str) : List Str :=
+  p.foldl (physStep links) []
+
 end C41
